@@ -3,8 +3,8 @@ import MindsVerif.Model.SelectSkel
 S <distinct 0|1> <t,t,..> <clause>*      clause ::= F:n | W:n | G:n,n.. | H:n | O:n,n.. | L:n | L2:n,n | X:n | U | US:n
    payload n: n%4=0 operation, n%4=2 integer constant, otherwise neither
    -> ok <record> | <printed clauses> | rt=<0|1>      or     err <code>
-Q <tok>*      tok ::= s<n> | u | ua | i | ia | e | ea | ( | )      (parenthesised operands, one level or nested)
-   -> some <tree> | <printed> | rt=<0|1>    or   none
+Q <tok>*      tok ::= s<n> | u | ua | i | ia | e | ea | ( | )      (parenthesised operands, nested to any depth)
+   -> some <tree> | <printed> | rt=<0|1>    or   none        (a set operation with parentheses = True is shown `(u! l r)`)
 -/
 open MindsVerif.SelectSkel
 
@@ -67,9 +67,9 @@ def handleS (ws : List String) : String :=
 
 partial def showQ : Q → String
   | .sel n => s!"s{n}"
-  | .comb o u l r =>
+  | .comb o u p l r =>
     let on := match o with | .union => "u" | .intersect => "i" | .except => "e"
-    s!"({on}{if u then "" else "a"} {showQ l} {showQ r})"
+    s!"({on}{if u then "" else "a"}{if p then "!" else ""} {showQ l} {showQ r})"
 
 def opOf (w : String) : Option (SetOp × Bool) :=
   match w with
@@ -78,41 +78,27 @@ def opOf (w : String) : Option (SetOp × Bool) :=
   | "e" => some (.except, true) | "ea" => some (.except, false)
   | _ => none
 
-/-- reduce parenthesised groups (`select : ( select ) | ( union )`) to `grp` tokens, innermost first -/
-partial def groupToks : List String → List QTok → Option (List QTok × List String)
-  | [], acc => some (acc.reverse, [])
-  | ")" :: rest, acc => some (acc.reverse, ")" :: rest)
-  | "(" :: rest, acc =>
-    match groupToks rest [] with
-    | some (inner, ")" :: rest') =>
-      match parseQ inner with
-      | some q => groupToks rest' (.grp q :: acc)
-      | none => none
-    | _ => none
-  | w :: rest, acc =>
-    match opOf w with
-    | some (o, u) => groupToks rest (.op o u :: acc)
-    | none =>
-      if w.startsWith "s" then
-        match (w.drop 1).toNat? with
-        | some n => groupToks rest (.sel n :: acc)
-        | none => none
-      else none
+def readQTok (w : String) : Option QTok :=
+  if w == "(" then some .lp else if w == ")" then some .rp else
+  match opOf w with
+  | some (o, u) => some (.op o u)
+  | none => if w.startsWith "s" then (w.drop 1).toNat?.map .sel else none
 
 def showQTok : QTok → String
   | .sel n => s!"s{n}"
-  | .grp q => "(" ++ showQ q ++ ")"
+  | .lp => "("
+  | .rp => ")"
   | .op o u => (match o with | .union => "u" | .intersect => "i" | .except => "e") ++ (if u then "" else "a")
 
 def handleQ (ws : List String) : String :=
-  match groupToks ws [] with
-  | some (toks, []) =>
+  match ws.mapM readQTok with
+  | some toks =>
     match parseQ toks with
     | none => "none"
     | some q =>
       let rt := decide (parseQ (printQ q) = some q)
       s!"some {showQ q} | {" ".intercalate ((printQ q).map showQTok)} | rt={if rt then 1 else 0}"
-  | _ => "none"
+  | none => "none"
 
 def handle (line : String) : String :=
   match (line.trimAscii.toString.splitOn " ").filter (· ≠ "") with
